@@ -360,7 +360,7 @@ LOOP:
 				if ready {
 					// Danger.  ToDo: Be more careful
 					c.Timeline = c.Timeline[1:]
-					verifJob("Cron.pop", job, now)
+					verifJob("Cron.pop", c.Name, job, now)
 					if !job.Once() {
 						c.running[job.Id] = job
 					}
@@ -465,7 +465,7 @@ func (c *Cron) insert(ctx *core.Context, job *CronJob) int {
 		copy(c.Timeline[at+1:], c.Timeline[at:])
 		c.Timeline[at] = job
 	}
-	verifJob("Cron.insert", job, time.Now())
+	verifJob("Cron.insert", c.Name, job, time.Now())
 	c.resetTimer()
 	return at
 }
@@ -591,6 +591,6 @@ func (c *Cron) rem(ctx *core.Context, id string) (bool, error) {
 	if !found {
 		// log.Printf("Cron.Rem %p %s job %s not found", c, c.Name, id)
 	}
-	verifRem("Cron.rem", id, found)
+	verifRem("Cron.rem", c.Name, id, found)
 	return found, nil
 }
